@@ -544,7 +544,7 @@ pub fn check(case: &Case) -> Result<Stats, String> {
 // ---------------------------------------------------------------------------------------------
 // generation
 
-const PATHS: &[&str] = &["/a", "/b", "/c", "/d", "/loop1", "/loop2", "/old", "/new", "/a/@n", "/x?y=1", "/Shop/@n", "/Shop/@n/x", "/Old"];
+const PATHS: &[&str] = &["/a", "/b", "/c", "/d", "/loop1", "/loop2", "/old", "/new", "/a/@n", "/x?y=1", "/Shop/@n", "/Shop/@n/x", "/Old", "/a/", "/new/"];
 
 fn example_json(rng: &mut Rng, url: &str, must_match: bool, unit_ids: Vec<String>) -> Value {
     let mut e = serde_json::Map::new();
